@@ -2485,6 +2485,91 @@ class Engine:
     def expr_GeneratorExp(self, node, st):
         return self.comprehension(node, st, 'gen')
 
+    def _nested_comprehension(self, node, st, pytype):
+        """[elt for x in A for y in range(n(x))] without conditions, A of symbolic length m, elt and n(x) evaluated
+        without exceptions: encoded by its defining bijection between flat indices and (outer index, inner offset)
+        pairs (encoding assumption A-NESTED: the python result lists the pairs in lexicographic order; only the
+        bijection and the length are exported)."""
+        g0, g1 = node.generators
+        if g0.ifs or g1.ifs:
+            raise Unsupported('nested comprehension with conditions')
+        res = []
+        for st2, it in self.eval(g0.iter, st):
+            m, elem = self.iter_descr(it, st2)
+            if m is None:
+                raise Unsupported('nested comprehension over an unbounded stream')
+            d = smt.fresh('nd', smt.Int)
+            e = smt.fresh('ne', smt.Int)
+            outs = elem(d)
+            if len(outs) != 1 or outs[0].exc is not None:
+                raise Unsupported('nested comprehension: outer element may raise')
+            base = st2.fork(d >= 0, d < m, *outs[0].facts)
+            n_before = len(base.pc)
+            self.sinks.append([])
+            try:
+                got = []
+                for s1 in self.assign(g0.target, outs[0].value, base):
+                    for s2, inner in self.eval(g1.iter, s1):
+                        if not isinstance(inner, RangeV):
+                            raise Unsupported('nested comprehension: inner iterable is not a range')
+                        s3 = s2.fork(e >= 0, e < inner.n)
+                        for s4 in self.assign(g1.target, IntV(inner.start + e), s3):
+                            for s5, v in self.eval(node.elt, s4):
+                                got.append((s5, inner, v))
+            finally:
+                raised = self.sinks.pop()
+            if raised and any(self.feasible(o.st) for o in raised):
+                raise Unsupported('nested comprehension: element may raise')
+            if len(got) != 1:
+                raise Unsupported('nested comprehension with %d outcomes per element' % len(got))
+            s5, inner, v = got[0]
+            extra = [c for c in s5.pc[n_before:] if not (c.eq(e >= 0) or c.eq(e < inner.n))]
+            if extra:
+                # conditions collected while evaluating the element (e.g. a non-zero divisor) must hold for every pair
+                chk = base.fork(e >= 0, e < inner.n)
+                if self.feasible(chk, z3.Not(z3.And(*extra))):
+                    raise Unsupported('nested comprehension: element evaluation forks')
+            c = next(smt._counter)
+            nd = lambda dd: z3.substitute(inner.n, (d, dd))      # noqa
+            # range(n) is empty for n < 0: the summand is max(n, 0); plain n when n >= 0 holds for every outer element
+            # the summand is max(n, 0); written plainly when one side of a top-level if-then-else is always taken
+            nterm = inner.n
+            while z3.is_app(nterm) and nterm.decl().kind() == z3.Z3_OP_ITE:
+                c_, a_, b_ = nterm.arg(0), nterm.arg(1), nterm.arg(2)
+                r1, _ = smt.check_sat(self.axioms() + base.pc + [c_], timeout_ms=3000)
+                if r1 == 'unsat':
+                    nterm = b_
+                    continue
+                r2, _ = smt.check_sat(self.axioms() + base.pc + [z3.Not(c_)], timeout_ms=3000)
+                if r2 == 'unsat':
+                    nterm = a_
+                    continue
+                break
+            r_nn, _ = smt.check_sat(self.axioms() + base.pc + [nterm < 0], timeout_ms=3000)
+            nonneg = (r_nn == 'unsat')
+            tot = smt.FOLDS.sum(d, nterm if nonneg else z3.If(nterm >= 0, nterm, I(0)))
+            L = tot(m)
+            smt.FOLDS.note_index(m)
+            DP = z3.Function('NEST_D!%d' % c, smt.Int, smt.Int)
+            EP = z3.Function('NEST_E!%d' % c, smt.Int, smt.Int)
+            FLAT = z3.Function('NEST_FLAT!%d' % c, smt.Int, smt.Int, smt.Int)
+            x = z3.Int('_nx')
+            dd, ee = z3.Int('_ndd'), z3.Int('_nee')
+            s_ok = st2.fork(
+                z3.ForAll([x], z3.Implies(z3.And(x >= 0, x < L),
+                                          z3.And(DP(x) >= 0, DP(x) < m, EP(x) >= 0, EP(x) < nd(DP(x)), FLAT(DP(x), EP(x)) == x)),
+                          patterns=[DP(x)]),
+                z3.ForAll([dd, ee], z3.Implies(z3.And(dd >= 0, dd < m, ee >= 0, ee < nd(dd)),
+                                               z3.And(FLAT(dd, ee) >= 0, FLAT(dd, ee) < L, DP(FLAT(dd, ee)) == dd,
+                                                      EP(FLAT(dd, ee)) == ee)), patterns=[FLAT(dd, ee)]))
+
+            def pair_elem(a, b, v=v):
+                return v.subst(d, a).subst(e, b)
+            r = NestedSeqV(L, lambda xx: pair_elem(DP(xx), EP(xx)), 'list' if pytype == 'list' else 'tuple')
+            r.m, r.n_of, r.DP, r.EP, r.FLAT, r.pair_elem = m, nd, DP, EP, FLAT, pair_elem
+            res.append((s_ok, r))
+        return res
+
     def comprehension(self, node, st, pytype):
         """[body for x in <symbolic sequence>] (single generator): the body is evaluated once
         at a generic index j.  Supported when the body has, per j, one normal outcome
@@ -2494,6 +2579,8 @@ class Engine:
         h = self.ctx_hook('comprehension_hook', st, node)
         if h is not None:
             return h
+        if len(node.generators) == 2:
+            return self._nested_comprehension(node, st, pytype)
         if len(node.generators) != 1:
             raise Unsupported('nested comprehension')
         g = node.generators[0]
@@ -2532,6 +2619,13 @@ class Engine:
                 raise Unsupported('comprehension over an unbounded stream')
             res.extend(self._generic_comprehension(node, g, st2, length, elem, pytype))
         return res
+
+
+class NestedSeqV(SymSeqV):
+    """[elt for a in A for b in range(n(a))]: the flat list of length sum_{d<m} n(d) that holds the element of every
+    pair (d, e), 0 <= d < m, 0 <= e < n(d), exactly once.  DP/EP give the pair at a flat index, FLAT the index of a pair
+    (mutually inverse); `pair_elem(d, e)` is the element of a pair."""
+    kind = 'nestedseq'
 
 
 class RangeV(Val):
